@@ -14,6 +14,7 @@ let run_esc (a : Sx.t list) : string =
       | "fish_string" -> Some (EscapeModel.fish_escape_string s false)
       | "fish_string_comma" -> Some (EscapeModel.fish_escape_string s true)
       | "fish_help" -> Some (EscapeModel.fish_escape_help s)
+      | "fish_double_quoted" -> Some (EscapeModel.fish_escape_double_quoted s)
       | "zsh_help" -> Some (EscapeModel.zsh_escape_help s)
       | "zsh_value" -> Some (EscapeModel.zsh_escape_value s)
       | "powershell_string" -> Some (EscapeModel.powershell_escape_string s)
